@@ -206,11 +206,11 @@ class _SolverProxy:
         if fac.fail is not None and fac.fail[0] == "solve" and fac.fail[1] == k:
             fac.fired.append(("solve", k, current_trial()))
             raise LinearSolverError("injected solve failure #%d" % k)
-        sol = self._inner.solve(rhs, trans=trans, initial_sol=initial_sol)
         if fac.fail is not None and fac.fail[0] == "nan" and fac.fail[1] == k:
             # a solver that returns non-finite values without raising (as iterative solvers do after overflow)
             fac.fired.append(("nan", k, current_trial()))
-            sol = np.full(np.shape(sol), np.nan)
+            return np.full(np.shape(rhs), np.nan)
+        sol = self._inner.solve(rhs, trans=trans, initial_sol=initial_sol)
         if fac.record:
             fac.log.append((self._mat, np.copy(rhs), np.copy(sol), trans))
         return sol
